@@ -228,6 +228,45 @@ def shard(ctx):
                                   "definitions of tgt are %s (the first that is not SKIP decides: %s) but %s is %s, expected %s" % (
                                       [ST[c] for c in combo], eff, bad[0], got.get(bad[0]), want[bad[0]]), case)
 
+    # ---------------- (A3) calls of a parameterised rule whose body is forced to PASS / FAIL / SKIP x 5 call forms x caller before/after
+    for c_ in "PFS":
+        for users_first in (False, True):
+            idx += 1
+            if not ctx.mine(idx):
+                continue
+            eff = ST[c_]
+            defs = "rule ptgt(v) {\n    %s\n}\n" % LEAF[c_]
+            users = ("rule u_c {\n    ptgt(a)\n}\nrule u_n {\n    not ptgt(a)\n}\nrule u_w when ptgt(a) {\n    %A == 1\n}\n"
+                     "rule u_wn when !ptgt(a) {\n    %A == 1\n}\nrule u_or {\n    ptgt(a) or %A == 2\n}\nrule u_nor {\n    not ptgt(a) or %A == 2\n}\n")
+            text = PRELUDE + (users + defs if users_first else defs + users)
+            want = {"u_c": "PASS" if eff == "PASS" else "FAIL", "u_n": "FAIL" if eff == "PASS" else "PASS",
+                    "u_w": "PASS" if eff == "PASS" else "SKIP", "u_wn": "SKIP" if eff == "PASS" else "PASS",
+                    "u_or": "PASS" if eff == "PASS" else "FAIL", "u_nor": "FAIL" if eff == "PASS" else "PASS"}
+            case = {"kind": "gadget", "rules": text, "data": DOCS, "expected": want}
+            res = ctx.w.run({"k": "rc", "data": DOCS, "rules": text, "verbose": True})
+            ctx.res.cases += 1
+            if res.get("r") != "ok":
+                if core.crash_signature(res):
+                    ctx.inconclusive("crash")
+                else:
+                    ctx.violation("call:evaluation-error", "call gadget failed: %s" % res.get("err", "")[:200], case)
+                continue
+            tree = json.loads(res["out"])
+            tc = check_tree(ctx, tree, text)
+            for sig, msg in tc.problems:
+                ctx.violation("tree:" + sig, msg + "\n" + text, case)
+            got = dict(obs.tree_rule_statuses(tree))
+            ctx.res.counts["parameterised_call_gadgets"] += 1
+            ctx.res.distinct.add(("call-gadget", c_, users_first))
+            bad = sorted(u for u in want if got.get(u) != want[u])
+            if "u_c" in bad and eff == "SKIP" and got.get("u_c") == "SKIP":
+                # a call is also "the body with the parameters replaced" (C15): a SKIP body makes the calling clause SKIP, which the
+                # statement's "FAIL otherwise" (written for clauses that NAME a rule) does not clearly exclude - accepted
+                ctx.res.counts["call_of_skipping_rule_is_skip"] += 1
+                bad.remove("u_c")
+            if bad:
+                ctx.violation("call:%s:callee-%s" % (bad[0], eff), "the called parameterised rule is %s but %s is %s, expected %s" % (eff, bad[0], got.get(bad[0]), want[bad[0]]), case)
+
     # ---------------- (B) random programs
     n = 250 if ctx.quick else 12000
     rng = ctx.rng("B")
